@@ -194,6 +194,8 @@ def build(desc):
         d = {}
         for f, v in o["fields"].items():
             d[f] = val(v)
+            if f in TUPLE_FIELDS and isinstance(d[f], np.ndarray):
+                d[f] = tuple(float(x) for x in d[f])  # a tuple in the real objects (its truth value is used)
         d.setdefault("id", ("pop", oid))
         try:
             obj.__dict__.update(d)
@@ -205,6 +207,9 @@ def build(desc):
                     pass
     args = {k: val(v) for k, v in desc["args"].items()}
     return objs, (objs[desc["self"]] if desc.get("self") else None), args
+
+
+TUPLE_FIELDS = {"skip_function"}
 
 
 # ------------------------------------------------------------------------------------------------ concrete spec evaluation
@@ -315,11 +320,31 @@ class _StubNS:
     """stand-in for an external collaborator (e.g. a TimeSeries) in replays: only the stubbed members exist"""
 
 
-def install_stubs(self_obj, stubs, values):
+class _StubCallable:
+    """stands for an external callable that is stubbed both as a call (its result) and as a value (its truth)"""
+
+    def __init__(self, result, truth=True):
+        self.result = result
+        self.truth = truth
+
+    def __call__(self, *a, **k):
+        v = self.result
+        return np.array(v, dtype=float).copy() if isinstance(v, (list, np.ndarray)) else v
+
+    def __bool__(self):
+        return bool(self.truth)
+
+
+def install_stubs(self_obj, stubs, values, ghost_kinds=None):
     """make the real method see the contract's ghost values for the stubbed external sub-expressions"""
     overrides = {}
-    for key, gname in stubs.items():
+    called = {}
+    # calls first, so that a stub for the bare attribute (its truth value) refines the callable instead of replacing it
+    order = sorted(stubs.items(), key=lambda kv: 0 if isinstance(ast.parse(kv[0], mode="eval").body, ast.Call) else 1)
+    for key, gname in order:
         val = values.get(gname)
+        if val is None and ghost_kinds and str(ghost_kinds.get(gname, "")).startswith("const:"):
+            val = eval(ghost_kinds[gname][6:], {})
         node = ast.parse(key, mode="eval").body
 
         def holder(attr_node):
@@ -341,10 +366,13 @@ def install_stubs(self_obj, stubs, values):
 
         if isinstance(node, ast.Call) and isinstance(node.func, ast.Attribute):
             obj, name, depth = holder(node.func)
-            obj.__dict__[name] = (lambda v: (lambda *a, **k: (np.array(v, dtype=float).copy() if isinstance(v, (list, np.ndarray)) else v)))(val)
+            obj.__dict__[name] = _StubCallable(val)
+            called[(id(obj), name)] = obj.__dict__[name]
         elif isinstance(node, ast.Attribute):
             obj, name, depth = holder(node)
-            if depth == 1 and isinstance(getattr(type(self_obj), name, None), property):
+            if (id(obj), name) in called:
+                called[(id(obj), name)].truth = val
+            elif depth == 1 and isinstance(getattr(type(self_obj), name, None), property):
                 overrides[name] = property((lambda v: (lambda self: v))(val))
             else:
                 obj.__dict__[name] = val
@@ -371,13 +399,19 @@ def run_replay(desc, contract, clause_name=None):
     mod = importlib.import_module("atomica." + modname)
     if contract.get("stubs") and self_obj is not None:
         try:
-            self_obj = install_stubs(self_obj, contract["stubs"], args)
+            self_obj = install_stubs(self_obj, contract["stubs"], args, contract.get("ghost_params"))
         except Exception as e:
             return dict(out, verdict="error", detail="cannot install stubs: %s: %s" % (type(e).__name__, e))
     env = dict(args)
     if self_obj is not None:
         env["self"] = self_obj
     env["__module__"] = modname
+    if contract.get("replay_prepare"):
+        # contract-specific collaborators for stubbed sub-expressions that are not rooted at `self` (fragment contracts)
+        try:
+            contract["replay_prepare"](env)
+        except Exception as e:
+            return dict(out, verdict="error", detail="replay_prepare failed: %s: %s" % (type(e).__name__, e))
     try:
         for r in contract.get("requires", []):
             if not eval_spec(r, env, {}, strict=True):
@@ -396,6 +430,8 @@ def run_replay(desc, contract, clause_name=None):
         src = textwrap.dedent(inspect.getsource(fobj))
         ftree = ast.parse(src)
         hits = [n for n in ast.walk(ftree) if isinstance(n, ast.For) and ast.unparse(n.iter).replace('"', "'") == frag["iter"].replace('"', "'")]
+        if frag.get("body_contains"):
+            hits = [n for n in hits if frag["body_contains"] in "\n".join(ast.unparse(b) for b in n.body)]
         loop = ast.For(target=ast.Name(id="_once", ctx=ast.Store()), iter=ast.List(elts=[ast.Constant(0)], ctx=ast.Load()), body=hits[0].body, orelse=[])
         code = compile(ast.fix_missing_locations(ast.Module(body=[loop], type_ignores=[])), "<fragment of %s>" % desc["function"], "exec")
         fenv = dict(vars(mod))
